@@ -611,7 +611,16 @@ fn build_meta(name: &str, origin: &str, text: &str, acc: &Accepted, probes: bool
         total_domain: model.all_productive() && model.consumes_on_every_cycle(),
         has_choice: model.has_choice(),
         has_probes: probes && model.has_choice(),
-        shape_tags: if model.undoable_creation_at_outer_mark() { vec!["undo_of_node_creation_at_outer_mark".to_string()] } else { vec![] },
+        shape_tags: {
+            let mut t = vec![];
+            if model.undoable_creation_at_outer_mark() {
+                t.push("undo_of_node_creation_at_outer_mark".to_string());
+            }
+            if model.creation_makes_later_mark_stale() {
+                t.push("node_creation_makes_later_mark_stale".to_string());
+            }
+            t
+        },
     })
 }
 
